@@ -56,4 +56,50 @@ CHECKS += [
              "(iteration budget, friction model) are measured.",
      "note": "reference model written from doc/source/pipeflow/options.rst and the statement; pinned copy of default values"},
 ]
+
+CHECKS += [
+    {"property_id": "C03", "category": "exploration", "design_ref": "DESIGN.md 4/C03",
+     "technique": "bounded-exhaustive enumeration of set-point configurations on the real solver + recomputation of every prescribed value",
+     "text": "Scope H (d<=1), circulation-pump ladders and dedicated lattices (pump types x temperatures x direction x height x "
+             "out-of-service sibling; compressor ratios x direction x heights; 1-2 pressure controllers with remote junction; "
+             "flow controllers in series/mesh/reversed/parallel; all table orders of up to 5 ext grids over two junctions) are "
+             "solved and every prescribed pressure, flow, lift, ratio, pump-curve value and load is recomputed from the tables.",
+     "note": "pump curve evaluated by the harness from the std type's polynomial coefficients; hydrostatic term of a height "
+             "difference across a compressor/pump is accepted on top of ratio/lift"},
+    {"property_id": "C06", "category": "exploration", "design_ref": "DESIGN.md 4/C06",
+     "technique": "exhaustive permutation enumeration (labels, rows, creation order) with differential oracle on element identity",
+     "text": "For three base networks every permutation of junction and pipe labels over four label pools (incl. >=1e5), of "
+             "the labels of every other table, every row permutation of one table and every creation order of element kinds "
+             "is built and solved (numba on/off, hydraulics/sequential); every result cell must equal the reference "
+             "description's cell for the same element.",
+     "note": "quick tier uses all permutations for tables with <=4 rows and all rotations/reversals beyond; thorough all"},
+    {"property_id": "C07", "category": "model_checking", "design_ref": "DESIGN.md 4/C07",
+     "technique": "full-product enumeration of twin-kernel inputs + engine-differential on enumerated networks + explicit-state BFS over reuse histories",
+     "text": "(a) each numba/numpy twin kernel is evaluated on the full product of per-column alphabets and compared output by "
+             "output; (b) scope H d<=1, scope T and loops are solved with both engines; (c) all histories (depth<=2/3) of "
+             "pipeflow calls with only_update_hydraulic_matrix/reuse_internal_data and load/set-point edits are replayed on "
+             "one net object and every state is compared with a fresh calculation.",
+     "note": "Jacobian outputs of the kernels are compared informationally only (the statement is about results)"},
+    {"property_id": "C09", "category": "exploration", "design_ref": "DESIGN.md 4/C09",
+     "technique": "exhaustive enumeration of rewrite application sites on enumerated networks with differential oracle",
+     "text": "On every scope H / scope T base every application site of seven rewrites (reverse branch, sections <-> series "
+             "pipes, re-sectioning, load splitting, source <-> negative sink, disabled <-> deleted, pressure shift; thorough: all "
+             "pairs on thermal bases) is applied to the NetSpec and both descriptions are solved and compared on element "
+             "identity with the sign/column transformation the rewrite implies.",
+     "note": "a differing convergence verdict is counted, not flagged (Newton's start values follow the declared orientation)"},
+    {"property_id": "C10", "category": "exploration", "design_ref": "DESIGN.md 4/C10",
+     "technique": "bounded-exhaustive enumeration of thermal networks on the real solver + independent thermal-law oracle",
+     "text": "Six open thermal topologies (every point within d<=2/3 deviations of per-pipe sections/u/ambient/outer diameter/"
+             "orientation and global mode/numba/ambient option) and circulation-pump ladders in sequential and bidirectional "
+             "mode; per flowing section the exponential cooling law with mean cp, per junction the energy balance with mean "
+             "cp weights, fixed feed temperatures and the min/max principle are re-evaluated from the result tables to 1e-7 K.",
+     "note": "section temperatures are read from the solver's node table; zero-flow branches excluded"},
+    {"property_id": "C11", "category": "exploration", "design_ref": "DESIGN.md 4/C11",
+     "technique": "exhaustive enumeration of heat-consumer mode assignments on ladder loops + duty identities",
+     "text": "All assignments of the five heat-consumer specification modes and exchanger rungs to k<=2/3 rungs x heat sign x "
+             "pipe heat loss x pump kind x sequential/bidirectional: duty identity q = mdot*cp_mean*dT per consumer/exchanger, "
+             "reported deltat, set-points (mass flow always, the second quantity when mass flow is prescribed or in "
+             "bidirectional mode) and loop closure of the circulation pump's heat within the cp-discretisation envelope.",
+     "note": "non-converging assignments are counted (coverage floor 30%)"},
+]
 NOT_APPLICABLE = [x for x in NOT_APPLICABLE if x["property_id"] not in {c["property_id"] for c in CHECKS}]
